@@ -187,3 +187,17 @@ Definition run_ord (ws : list Z) : list Z :=
     end
   | _ => [-1]
   end.
+
+(* ------------------------------ SetSketchParams JSON ------------------------------ *)
+From PMH Require Import Model.ParamsJson.
+Definition run_json_parse (ws : list Z) : list Z :=
+  match parse_params ws with
+  | POk b m a q => 0 :: Z.of_N m :: Z.of_N q :: (Z.of_nat (length b) :: b) ++ (Z.of_nat (length a) :: a)
+  | PError => [1]
+  | PUnsupported => [2]
+  end.
+Definition run_json_print (ws : list Z) : list Z :=
+  match (b <- rd_list rd_z ;; m <- rd_z ;; a <- rd_list rd_z ;; q <- rd_z ;; rd_ret (b, m, a, q)) ws with
+  | Some ((b, m, a, q), []) => print_params b (Z.to_N m) a (Z.to_N q)
+  | _ => [-1]
+  end.
